@@ -43,7 +43,8 @@ CONSTANTS Decl,        \* abstract values admitted by the declared type, subset 
           Programs     \* the programs to execute
 
 Vals == {"nil", "false", "int", "str"}
-AllDeviations == {"closure_call", "loop_backedge", "handler_entry", "closure_body", "fold_condition"}
+AllDeviations == {"closure_call", "loop_backedge", "handler_entry", "closure_body", "guard_scope",
+                  "fold_condition"}
 
 ASSUME Decl \subseteq Vals /\ Deviations \subseteq AllDeviations
 
@@ -153,14 +154,20 @@ AfterCallType(before) ==
 (* type after a guard or loop joins the end of the body with the type      *)
 (* before it; an assignment keeps the current narrowing if the assigned    *)
 (* value fits it and otherwise falls back to the declared type.            *)
+(* Deviation "guard_scope": the narrowing of a guard lives in a scope of    *)
+(* its own, and an implementation that simply drops that scope at `end`    *)
+(* restores the type from before the guard -- forgetting assignments made  *)
+(* inside it (`if a; unless a; a = nil; end; <a still non-nil>`).          *)
 RECURSIVE StaticBlock(_, _), StaticStmt(_, _)
 StaticBlock(b, t) == IF Len(b) = 0 THEN t ELSE StaticBlock(Tail(b), StaticStmt(Head(b), t))
 StaticStmt(s, t) ==
   CASE s.op = "set"       -> IF s.v \in t THEN t ELSE Decl
     [] s.op = "call"      -> AfterCallType(t)
-    [] s.op \in GuardOps  -> StaticBlock(s.b, NarrowBy(s.op, t)) \cup t
+    [] s.op \in GuardOps  -> IF "guard_scope" \in Deviations THEN t
+                             ELSE StaticBlock(s.b, NarrowBy(s.op, t)) \cup t
     [] s.op \in LoopOps   -> LET head == HeadType(s, t)
-                             IN StaticBlock(s.b, NarrowBy(s.op, head)) \cup head
+                             IN IF "guard_scope" \in Deviations /\ s.op = "while" THEN head
+                                ELSE StaticBlock(s.b, NarrowBy(s.op, head)) \cup head
     [] s.op \in HandlerOps -> StaticBlock(s.h, HandlerType(s, t))   \* control always passes through h
     [] s.op = "late"      -> StaticBlock(s.b, t)
     [] OTHER              -> t
